@@ -5,7 +5,7 @@ from .gentree import Node
 
 PROP = "C19"
 KINDS = ["gzip", "xz", "lzma", "lz4", "zstd", "gzip-unc", "xz-unc", "lzma-unc", "lz4-unc", "zstd-unc",
-         "frag", "id", "meta", "dir", "data", "xattr-reader", "file", "xattr-writer"]
+         "frag", "id", "meta", "dir", "dir-dot", "data", "xattr-reader", "file", "xattr-writer"]
 
 
 def make_image(B, work, comp):
@@ -18,12 +18,17 @@ def make_image(B, work, comp):
     t[b"x"] = Node("dir", 0o755)
     for i in range(1100):
         t[b"x/e%04d" % i] = Node("file", 0o644, data=[], xattrs={b"user.n": b"%d" % i})
+    # an inode table of more than 64 KiB compressed (inode references that need more than 32 bits): many small inodes that compress badly
+    for dno in range(90):
+        t[b"deep%02d" % dno] = Node("dir", 0o755, uid=r.randrange(60000), gid=r.randrange(60000), mtime=r.getrandbits(31))
+        for i in range(100):
+            t[b"deep%02d/e%02d" % (dno, i)] = Node("file", 0o644, uid=r.randrange(60000), gid=r.randrange(60000), mtime=r.getrandbits(31), data=[])
     t[b"big"] = Node("file", 0o644, data=[("rep", b"0123456789", 5 * 4096 + 17)])
     t[b"sparse"] = Node("file", 0o644, data=[("zero", 8192), ("bytes", b"end")])
     root = os.path.join(work, "in")
     gentree.materialise_dir(t, root)
     img = os.path.join(work, "i.sqfs")
-    res = core.run_tool([B["gensquashfs"], "-q", "-c", comp, "-b", "4096", "-x", "-D", root, img], timeout=120)
+    res = core.run_tool([B["gensquashfs"], "-q", "-c", comp, "-b", "4096", "-x", "-k", "-D", root, img], timeout=120)
     assert res.rc == 0, res.err
     return img
 
